@@ -189,6 +189,11 @@ impl MainState {
             .process_internal(conn_state)
             .await
             .map_err(|e| e.to_string());
+        // send already queued messages (including echoes of this command) before replies
+        // for next command - keep order of replies for this connection.
+        while let Ok(msg) = conn_state.receiver.try_recv() {
+            conn_state.stream.feed(msg).await.map_err(|e| e.to_string())?;
+        }
         #[cfg(simple_irc_server_verif)]
         verif::before_flush(conn_state);
         conn_state.stream.flush().await.map_err(|e| e.to_string())?;
